@@ -79,7 +79,7 @@ def order(ctx):
                     good = good and payload_of(v) is not None and is_call(payload_of(v), callee)
                     if good:
                         a = look(payload_of(v)[2][0])
-                        good = a[0] == "field" and a[3] == idx and payload_of(a[1]) is not None and is_call(payload_of(a[1]), ORDER[0]) and look(payload_of(a[1])[2][0]) == ("arg", 1)
+                        good = a[0] == "field" and a[3] in (idx, {"0": "method", "1": "uri", "2": "version"}[idx]) and payload_of(a[1]) is not None and is_call(payload_of(a[1]), ORDER[0]) and look(payload_of(a[1])[2][0]) == ("arg", 1)
             ctx.ob("R02.1", "order|accept", good, "accepting path: split, Method(part 0), Uri(part 1), Version(part 2), each result stored in its own field", fn.loc(lf.bb))
         elif rk[0] == "prop":
             # the error returned is that of the last call made
@@ -160,6 +160,12 @@ def parts(ctx):
             n_ok += 1
             tup = look(rk[1])
             good = tup[0] == "tuple" and len(tup[1]) == 3
+            if not good and tup[0] == "agg" and len(tup[3]) == 3 and tup[1] in ctx.facts.adts:
+                # a private struct with named fields in place of the tuple
+                nms = [f["name"] for f in ctx.facts.struct_fields(tup[1])]
+                if sorted(nms) == ["method", "uri", "version"]:
+                    tup = ("tuple", tuple(tup[3][nms.index(k)] for k in ("method", "uri", "version")))
+                    good = True
             if good:
                 m, u, v = [look(x) for x in tup[1]]
                 if [splitn_piece(x) for x in (m, u, v)] == [0, 1, 2]:
@@ -180,6 +186,11 @@ def parts(ctx):
                 e = look(rk[1])
                 none1 = any(t[0] == "discr" and first_sp(t[1]) and option_is_some(c) is False for (t, c, _b) in lf.conds)
                 none2 = any(t[0] == "discr" and second_sp(t[1]) and option_is_some(c) is False for (t, c, _b) in lf.conds)
+                for (t, c, _b) in lf.conds:
+                    # `match (it.next(), it.next(), it.next())`: a missing piece of splitn(3, SP)
+                    if t[0] == "discr" and is_call(look(t[1]), "next") and option_is_some(c) is False:
+                        k = splitn_piece(("payload", look(t[1])))
+                        none1, none2 = none1 or k in (0, 1), none2 or k == 2
             else:
                 src, e = propagated_error(rk[1])
                 none1, none2 = first_sp(src), second_sp(src)
